@@ -18,6 +18,8 @@ const semverPkg = "golang.org/x/mod/semver"
 func C18(e *Env) {
 	r := e.R
 	e.analysedBase()
+	yamlKeysRule(e, "R11.12", "version")
+	e.R.Rule("R11.12", "key table (shared with C11): `version` is recognised under its documented spelling (an ignored key switches the gate off)", 1)
 	r.Rule("R18.1", "v-prefix typestate: every argument of a golang.org/x/mod/semver function is provably 'v'-prefixed on all paths (a constant starting with v, \"v\"+x, the true edge of strings.HasPrefix(x,\"v\"), a result of another semver function, or the validator's version field under its valid flag); semver answers \"\"/false for anything else, which would silently turn the gate into accept-or-reject-everything", 5)
 	r.Rule("R18.2", "patch, prerelease and build metadata cannot matter: every branch condition of ValidateVersion that depends on the build or the configured version does so only through semver.Major or semver.MajorMinor", 3)
 	r.Rule("R18.3", "skip conditions: every version comparison and every error site lies behind 'configuration has a version' and 'build version is valid'; valid is true exactly on the edge where semver.IsValid(\"v\"+version) held and version was stored prefixed", 3)
